@@ -42,6 +42,16 @@ CHECKS = {
          'Seeded search over op sequences of up to 25 operations with grid invariants after every op and op-specific reference checks (extension leaves classes untouched, third moment preserved on covering re-mesh, maxBins respected, reset/revert restore, moment functions depend only on the supplied distribution).',
          'Admissible PBM configurations only; revert only after a backup; PSD recording is not part of C08. Known finding: coarsening re-mesh can drop a sparse distribution entirely.',
          'DESIGN.md 4/C08'),
+ 'C11': ('exploration', 1500, 7200,
+         'differential deterministic simulation: worlds built from one record that differ only in the order of the phase list (all permutations) or of the solute elements, stepped and compared step by step with a local-jump rule',
+         'Phase order: every permutation of 2-3 phases of stub ternary worlds (real Al-Mg-Si in the thorough tier) compared over the whole history (time grid and permuted per-phase histories). Element order: six query kinds of the real Ni-Cr-Al database at seeded points compared as permuted images; paired diffusion runs with permuted element lists.',
+         'Equality judged locally (d_n <= 1e-6 and no jump from < 1e-12 to > 1e-9) because summation order legitimately changes rounding; element-order comparisons use cold caches.',
+         'DESIGN.md 4/C11'),
+ 'C13': ('exploration', 1500, 7200,
+         'deterministic simulation: non-isothermal precipitation worlds executed as pairs (constructor vs setter, break points vs function) and compared bitwise; recorded temperature vs independent schedule evaluation; tap on the binary lookup-table builder for the staleness bound',
+         'Every step: recorded temperature equals the schedule; every run: the paired equivalent specification gives a bitwise identical history and the same isothermal flag; binary runs: table staleness <= maxTempChange after every step and recorded solvus inside the bracket, heating and cooling, fast and slow ramps.',
+         'Schedules are seeded samples (2-5 break points); real-backend pairs start both variants from a cleared thermodynamics cache (C09 effects excluded).',
+         'DESIGN.md 4/C13'),
  'C12': ('exploration', 1200, 7200,
          'deterministic simulation: real KWN model under seeded schedules with a growth-sign monitor at every accepted step (growth, class boundaries and critical radius read at the same instant); static thermodynamic relations evaluated at states a real Al-Zr trajectory visits',
          'In-run clause checked at every step of every run (stub and real backends, binary and multicomponent, all site types/shapes); static clauses (dG(x_alpha(g)) = g, monotonicity, sentinel monotonicity, sign change at the solvus, agreement of the four methods) at visited states of real Al-Zr runs.',
